@@ -1403,6 +1403,23 @@ pub fn c19_sweep_plans(len: usize) -> Vec<Vec<Op>> {
         }
         frontier = next;
     }
+    // batches whose inner systems touch BOTH resources (the union accessor is built by sorting and de-duplicating
+    // ids: an ordering that disagrees with equality would lose one), an outer system touching one of them
+    for (w0, w1) in [(true, true), (true, false), (false, true)] {
+        for outer_res in [0u8, 1] {
+            for outer_write in [true, false] {
+                for outer_first in [false, true] {
+                    let acc = |res: u8, write: bool| -> (Vec<u8>, Vec<u8>) { if write { (vec![], vec![res]) } else { (vec![res], vec![]) } };
+                    let (r0, wr0) = acc(0, w0);
+                    let (r1, wr1) = acc(1, w1);
+                    let bt = Op::Batch(BatchSpec { name: "b".into(), deps: vec![], ctrl: CtrlData::Unit, times: 1, multi: false, fetch_data: false, inner: vec![s("in0".into(), &r0, &wr0, 3, vec![]), s("in1".into(), &r1, &wr1, 3, vec![])] });
+                    let (ro, wo) = acc(outer_res, outer_write);
+                    let outer = s("out".into(), &ro, &wo, 3, vec![]);
+                    out.push(if outer_first { vec![outer, bt] } else { vec![bt, outer] });
+                }
+            }
+        }
+    }
     out
 }
 
